@@ -26,6 +26,7 @@ NoHorizon == 0 - 1
 NoKnown == [h \in {} |-> 0]
 Known3 == (0 :> 0) @@ (2 :> 2) @@ (4 :> 4)       \* checkpoints every 2 blocks: ids of the first-arrived chain
 Target1 == << 128 >>
+RD1 == {0}
 RD2 == {0, 1}
 RD3 == {0, 1, 0 - 1}
 
@@ -40,7 +41,7 @@ Out(v, k)   == [v |-> v, k |-> k]
 Tx(id, ins, outs, mut) == [id |-> id, ins |-> ins, outs |-> outs, sizeok |-> TRUE, mut |-> mut]
 
 Genesis == [id |-> 0, parent |-> NoBlock, height |-> 0, ts |-> 10, target |-> GenesisTarget,
-            powok |-> TRUE, evok |-> TRUE, merkleok |-> TRUE, sizeok |-> TRUE, mut |-> "",
+            powok |-> TRUE, evok |-> TRUE, merkleok |-> TRUE, sizeok |-> TRUE, mut |-> "", altstart |-> 0 - 1,
             txs |-> << Tx(0, << CbIn(0) >>, << Out(Subsidy(0), CHOOSE k \in Miners : TRUE) >>, "") >>]
 
 NextId == Len(order)               \* rejected candidates do not consume ids
@@ -136,12 +137,23 @@ BaseBlock(p, dts, miner, txs, rd) ==
       rw == Subsidy(h) + Fees(utxo[p], txs) + rd
   IN [id |-> NextId, parent |-> p, height |-> h, ts |-> ts,
       target |-> IF et.ok THEN et.t ELSE blocks[p].target,
-      powok |-> TRUE, evok |-> TRUE, merkleok |-> TRUE, sizeok |-> TRUE, mut |-> "",
+      powok |-> TRUE, evok |-> TRUE, merkleok |-> TRUE, sizeok |-> TRUE, mut |-> "", altstart |-> 0 - 1,
       txs |-> << Tx(TxId(0), << CbIn(h) >>, IF rw > 0 THEN << Out(rw, miner) >> ELSE << >>, "") >> \o txs]
 
 MutateHdr(b, m) ==
   CASE m = "badpow"      -> [b EXCEPT !.powok = FALSE, !.mut = m]
     [] m = "badtarget"   -> [b EXCEPT !.target = [b.target EXCEPT ![W] = (@ + 1) % 256], !.mut = m]
+    [] m = "target_otherchain" ->     \* the retarget computed from the period-start block of *another* branch
+         LET h == b.height
+             others == { q \in DOMAIN blocks : (h - Period) \in DOMAIN byHeight[q] /\ (h - Period) \in DOMAIN byHeight[b.parent]
+                                                /\ byHeight[q][h - Period] # byHeight[b.parent][h - Period] }
+         IN IF h % Period = 0 /\ others # {}
+            THEN LET q == CHOOSE x \in others : TRUE
+                     st == byHeight[q][h - Period]
+                     el == b.ts - blocks[st].ts
+                 IN IF el >= 0 THEN [b EXCEPT !.target = ScaleCapped(blocks[b.parent].target, Nat4(el), Timespan, W), !.mut = m, !.altstart = st]
+                    ELSE b
+            ELSE b
     [] m = "ts_equal"    -> [b EXCEPT !.ts = blocks[b.parent].ts, !.mut = m]
     [] m = "ts_before"   -> [b EXCEPT !.ts = blocks[b.parent].ts - 1, !.mut = m]
     [] m = "height_plus" -> [b EXCEPT !.height = @ + 1, !.txs[1].ins[1].cbh = @ + 1, !.mut = m]
